@@ -453,4 +453,44 @@ def splitterSplit (B : Nat) (ps : List Patch) (rm bm : List (List Nat)) (base : 
   (muxSplit B (rm.map CMir.leaf) (bm.map CMir.leaf) (CVec.leaf 1 base)
     (ps.map fun p => CVec.leaf 1 (List.replicate p.n 0))).map CVec.flat
 
+
+/-! ### Operand aliasing in the Global layer
+
+`Global::Matrix::apply(r, x, y, alpha)` (and `apply_transposed`, and the `_async` variants) may be called
+with `r` and `y` the same object.  Then `r.copy(y)` is skipped (`Global::Vector::copy` avoids self-copy),
+`from_1_to_0` converts `r` in place and the local CSR kernel runs with its result array aliasing its addend:
+row `i` reads `r[i]` and then overwrites it (`matVecAxpyInPlace`); the transposed kernel accumulates into
+`r` in both cases.  The `alias` flag selects the code path; `C13.gapply2_alias` says both give the same result. -/
+
+def rowDot (row : List (Nat × α)) (x : List α) : α := row.foldl (fun acc e => acc + e.2 * val x e.1) 0
+
+/-- CSR `apply(r, x, r, alpha)` with the result aliasing the addend: a sweep over the rows -/
+def matVecAxpyInPlace (rows : List (List (Nat × α))) (x r : List α) (alpha : α) : List α :=
+  rows.zipIdx.foldl (fun acc ri => acc.set ri.2 (val acc ri.2 + alpha * rowDot ri.1 x)) r
+
+/-- CSR `apply_transposed(r, x, y, alpha)`: `r = y`, then `r[col] += alpha * a * x[row]` in storage order -/
+def matVecTAxpy (rows : List (List (Nat × α))) (x y : List α) (alpha : α) : List α :=
+  rows.zipIdx.foldl (fun acc ri =>
+    ri.1.foldl (fun acc2 e => acc2.modify e.1 (fun t => t + alpha * (e.2 * val x ri.2))) acc) y
+
+/-- `Global::Matrix::apply(r, x, y, alpha)` / `apply_transposed(r, x, y, alpha)`; `alias`: `r` is `y` -/
+def gapply2A (alias transp : Bool) (ps : List Patch) (ords : List (List Nat))
+    (mats : List (List (List (Nat × α)))) (xs ys : List (List α)) (alpha : α) : List (List α) :=
+  sync0 ps ords ((List.range ps.length).map fun r =>
+    let y0 := from1to0 (ps.getD r default) (ys.getD r [])      -- r.copy(y) (skipped when aliased); r.from_1_to_0()
+    let rows := mats.getD r []
+    let x := xs.getD r []
+    if transp then matVecTAxpy rows x y0 alpha
+    else if alias then matVecAxpyInPlace rows x y0 alpha
+    else matVecAxpy rows x y0 alpha)
+
+/-- the aliased Global::Vector program of the `valias` case:
+`r.copy(y); r.copy(r); r.axpy(r, a); r.scale(r, b); r.component_product(r, r)` (every kernel is elementwise,
+so reading and writing the same array is harmless) -/
+def valiasLocal (a b : α) (ys : List (List α)) : List (List α) :=
+  ys.map fun y =>
+    let r1 := vAxpy y y a
+    let r2 := vScale r1 b
+    compMul r2 r2
+
 end FeatModel.Dist
